@@ -90,6 +90,7 @@ pub struct FnSpec {
     pub kill_arms: BTreeSet<usize>,
     pub closure_spans: Vec<(usize, (usize, usize))>,
     pub pin_idents: BTreeSet<String>,
+    pub ref_params: BTreeSet<String>,
 }
 impl FnSpec {
     pub fn out_name(&self) -> String {
